@@ -670,8 +670,11 @@ class SqlInterp:
         if isinstance(target, ast.Name):
             self.env[target.id] = v
         elif isinstance(target, (ast.Tuple, ast.List)):
-            for e in target.elts:
-                self._bind(e, Param(f"<part of {v.nf()[:40]}>"))
+            for i, e in enumerate(target.elts):
+                if isinstance(v, Param) and not v.text.startswith("<"):
+                    self._bind(e, Param(f"{v.text}[{i}]"))
+                else:
+                    self._bind(e, Param(f"<part of {v.nf()[:40]}>"))
 
     # -- expressions ----------------------------------------------------------
     def ev(self, e: ast.AST) -> V:
